@@ -568,6 +568,8 @@ def check_partial(res, case):
     text, facts = render_feature(feat)
     lines = text.split(u"\n")
     res.label("entry:" + entry)
+    if feat.get("noise") and any(l.strip().startswith(u"#") for l in lines):
+        res.label("entry:" + entry + ":with-comment-lines")
     res.nontrivial = True
     if entry == "tags":
         tag_facts = facts["tags"]
@@ -716,6 +718,10 @@ def partial_case(draw):
         feat["items"] = [rule]
     else:
         feat["items"] = [draw(st.one_of(scenario_st(False), outline_st(False)))]
+    if draw(st.booleans()):
+        # blank and comment lines between the lines of the part (a steps text given to execute_steps() may
+        # carry comments like any other Gherkin text)
+        feat["noise"] = draw(st.lists(st.integers(0, 200), min_size=1, max_size=12))
     return {"kind": "partial", "entry": entry, "feature": feat}
 
 
@@ -733,7 +739,7 @@ def explore(rec):
 
 def required_labels(tier):
     return ["examples-without-table:last-of-its-outline", "rule", "outline>=2examples", "docstring", "escaped-pipe", "non-english", "noise", "and-but-star", "alias",
-            "via-file", "line-endings:crlf", "line-endings:cr", "parser-reuse", "parser-reuse:non-english", "describe-roundtrip", "entry:steps", "entry:scenario", "entry:rule", "entry:tags",
+            "via-file", "line-endings:crlf", "line-endings:cr", "parser-reuse", "parser-reuse:non-english", "describe-roundtrip", "entry:steps", "entry:scenario", "entry:rule", "entry:tags", "entry:steps:with-comment-lines",
             "substeps:non-english"]
 
 
